@@ -127,6 +127,7 @@ package limitparallelrequests
 //@   ensures [kept] oldLoaded ==> !doDelete && newValue == oldValue && oldValue.processedCounter == old(oldValue.processedCounter)
 //@   ensures [withdrawn-iff-waiting] oldLoaded ==> (waiting <==> (exists i int :: {old(oldValue.orderedRequest[i])} 0 <= i && i < old(len(oldValue.orderedRequest)) && old(oldValue.orderedRequest[i]) == reqChan))
 //@   ensures [withdrawn] oldLoaded && waiting ==> len(oldValue.orderedRequest) == old(len(oldValue.orderedRequest)) - 1 && (forall i int :: {oldValue.orderedRequest[i]} 0 <= i && i < len(oldValue.orderedRequest) ==> oldValue.orderedRequest[i] != reqChan)
+//@   ensures [order-kept] oldLoaded && waiting ==> (exists k int :: {old(oldValue.orderedRequest[k])} 0 <= k && k < old(len(oldValue.orderedRequest)) && old(oldValue.orderedRequest[k]) == reqChan && (forall i int :: {oldValue.orderedRequest[i]} 0 <= i && i < k ==> oldValue.orderedRequest[i] == old(oldValue.orderedRequest[i])) && (forall i int :: {oldValue.orderedRequest[i]} k <= i && i < len(oldValue.orderedRequest) ==> oldValue.orderedRequest[i] == old(oldValue.orderedRequest[i + 1])))
 //@   ensures [not-waiting] oldLoaded && !waiting ==> len(oldValue.orderedRequest) == old(len(oldValue.orderedRequest)) && (forall i int :: {oldValue.orderedRequest[i]} 0 <= i && i < len(oldValue.orderedRequest) ==> oldValue.orderedRequest[i] == old(oldValue.orderedRequest[i]))
 //@   ensures [admits-nobody] notCalled(close)
 //@   ensures [inv] oldLoaded ==> epInv(oldValue, lim)
